@@ -65,8 +65,10 @@ class Enc:
         the words of a record write at the crash point are an arbitrary subset)."""
         sels = [self.fresh('wsel', z3.BoolSort()) for _ in groups]
         self.add(z3.PbEq([(s, 1) for s in sels], 1))
+        self.last_gps = []
         for g, sel in zip(groups, sels):
             gp = list(pairs)
+            self.last_gps.append(gp)
             for e in g.events:
                 if e.kind in ('load', 'read'):
                     if e.kind == 'read':
